@@ -17,7 +17,7 @@ package keepclient
 
 // Helpers used by putReplicas whose only relevant property here is their frame
 // (service discovery does network I/O and is outside the engine's reach).
-//@ func KeepClient.getRequestID trusted
+//@ func KeepClient.getRequestID property C11
 //@   modifies nothing
 //@ func KeepClient.WritableLocalRoots trusted
 //@   modifies KeepClient.localRoots KeepClient.writableLocalRoots KeepClient.gatewayRoots KeepClient.replicasPerService KeepClient.foundNonDiskSvc KeepClient.disableDiscovery
